@@ -363,7 +363,8 @@ BAD_MODES = [b"", b"644", b"06440", b"0648", b"064a", b"-644", b" 644", b"+644",
              b"0000", b"4755", b"1777"]
 # names a receiver must not follow out of DEST, names that only look dangerous, names with format directives (they end
 # up in error messages), long names
-SYS_NAMES = [b"..", b"/", b"a/../..", b"./", b"", b".", b"../x", b"x/..", b"a/b", b"/abs", b"//", b"..\0", b"..\0x",
+SYS_NAMES = [b"..", b"/", b"a/../..", b"./", b"", b".", b"../x", b"x/..", b"/..", b"./..", b"sub/..", b"sub/../..", b"..//",
+             b"%2e%2e", b"..%2f", b"\t..", b"..;", b"..\x0b", b"a/b", b"/abs", b"//", b"..\0", b"..\0x",
              b"a\0/../..", b"..\r", b"\r..", b".. ", b" ..", b"..\t", b"...", b"..x", b"-rf", b"--", b"%s%n%p%S%m%d%x",
              b"%", b"E", b"T1 0 1 0", b"C0644 0 x", b"D0755 0 x", b"\1", b"\2", b"\\", b"sub", b"old", b"sub/", b"old/",
              b"N" * 255, b"N" * 256, b"\xff\x80\xfe"]
